@@ -38,7 +38,7 @@ func (cl *Client) ASExchange(realm string, ASReq messages.ASReq, referral int) (
 				cl.settings.setAssumePreAuthentication(true)
 				err = setPAData(cl, &e, &ASReq)
 				if err != nil {
-					return messages.ASRep{}, krberror.Errorf(err, krberror.KRBMsgError, "AS Exchange Error: failed setting AS_REQ PAData for pre-authentication required")
+					return messages.ASRep{}, krberror.Errorf(err, krberror.KRBMsgError, "AS Exchange Error: failed setting AS_REQ PAData for pre-authentication required after KDC response: %v", e)
 				}
 				b, err := ASReq.Marshal()
 				if err != nil {
